@@ -23,6 +23,8 @@
 #include "llvm/ADT/SmallVector.h"
 #include "llvm/Support/raw_ostream.h"
 
+#include <algorithm>
+
 #include <cstdlib>
 #include <vector>
 
@@ -380,6 +382,8 @@ public:
     Command* decl;
     const Token& startTok;
     bool shellEscapeInAndOut;
+    /// The rule variables currently being expanded, to diagnose cycles.
+    SmallVector<StringRef, 4> activeRuleVariables = {};
   };
   static void lookupBuildParameter(void* userContext, StringRef name,
                                    raw_ostream& result) {
@@ -421,11 +425,21 @@ public:
     }
     auto it2 = decl->getRule()->getParameters().find(name);
     if (it2 != decl->getRule()->getParameters().end()) {
+      // A rule variable which (transitively) refers to itself can never be
+      // expanded; diagnose it instead of recursing without bound.
+      auto& active = context->activeRuleVariables;
+      if (std::find(active.begin(), active.end(), name) != active.end()) {
+        error("cycle in rule variables involving '" + name.str() + "'",
+              context->startTok);
+        return;
+      }
+      active.push_back(name);
       evalString(context, it2->second, result, lookupBuildParameter,
                  /*Error=*/ [&](const std::string& msg) {
                    error(msg + " during evaluation of '" + name.str() + "'",
                          context->startTok);
                  });
+      active.pop_back();
       return;
     }
       
